@@ -1,6 +1,6 @@
 //@ unit lsp_pos
 //@ serves C20 C04
-//@ must_verify token_index_at token_ref_at token_at token_prefix_at cursor_in_string collect_dot_path ucg_pos_to_range encode_semantic_tokens verif_position verif_find verif_rfind verif_chars_take lemma_chars_le_bytes lemma_path_pointwise
+//@ must_verify token_index_at token_ref_at token_at token_prefix_at cursor_in_string collect_dot_path ucg_pos_to_range encode_semantic_tokens verif_position verif_find verif_rfind verif_chars_take lemma_chars_le_bytes lemma_path_pointwise lemma_range_of_covering_token
 //@ include prelude/head.rs
 use std::rc::Rc;
 use std::collections::{BTreeMap, HashMap};
@@ -56,12 +56,6 @@ impl PartialEq for TokenType {
     fn eq(&self, other: &TokenType) -> bool { unimplemented!() }
 }
 
-// Every Rust object is at most isize::MAX bytes long; vstd does not export this for str.
-#[verifier::external_body]
-pub proof fn axiom_str_len_bound(s: &str)
-    ensures encode_utf8(s@).len() <= isize::MAX
-{ }
-
 // ---------- oracle: what "the token under the cursor" means ----------
 // ucg positions are 1-based (line, column), columns and token lengths count BYTES of the source line;
 // LSP positions are 0-based (line, character).  All arithmetic below is on mathematical integers.
@@ -93,6 +87,8 @@ pub open spec fn no_cover(ts: Seq<Token>, line: u32, character: u32) -> bool {
     forall|k: int| 0 <= k < ts.len() ==> !covers(#[trigger] ts[k], line, character)
 }
 
+// Totality is part of every contract below without being written: Verus proves absence of arithmetic
+// overflow/underflow, of out-of-bounds indexing and of non-termination for ALL `line`, `character` in u32.
 //@ extract src/lsp/mod.rs :: fn token_index_at
 //@   subst "doc.tokens.iter().position(|tok| {" => "verif_position(doc.tokens.as_slice(), |tok: &Token| -> (b: bool) requires wf_tok(*tok) ensures b == covers(*tok, line, character) {"
 //@   ret r
@@ -323,6 +319,13 @@ pub open spec fn pred(x: usize) -> int { if x == 0 { 0 } else { x - 1 } }
 //@   mutant line_plain_subtraction "pos.line.saturating_sub(1) as u32" => "(pos.line - 1) as u32" expect ucg_pos_to_range
 //@   mutant line_not_converted_back "pos.line.saturating_sub(1) as u32" => "pos.line as u32" expect ucg_pos_to_range
 //@ end
+
+// Corollary used by hover / go-to-definition (`ucg_pos_to_range(&tok.pos)` of the token under the cursor): the
+// reported range is on the requested line and starts at the token's first character, at or left of the cursor.
+pub proof fn lemma_range_of_covering_token(t: Token, line: u32, character: u32)
+    requires covers(t, line, character)
+    ensures character < u32::MAX ==> fits_lsp(t.pos), pred(t.pos.line) == line, pred(t.pos.column) <= character,
+{ }
 
 // lsp_types::SemanticToken: five u32 fields, the real definition (R0).
 //@ extract dep:lsp-types/src/semantic_tokens.rs :: struct SemanticToken
